@@ -597,6 +597,18 @@ func (e *Engine) load(st *State, l *Loc) *Term {
 		st.Assume(e.typeFacts(t, l.V.Type(), st))
 		return t
 	case LGlobal:
+		if fc := e.cs.Funcs[e.curFn]; fc != nil && fc.Options["volatile"] != "" {
+			// `option volatile pkg.Var ..`: the variable is written by another goroutine without synchronisation; every
+			// read in this function yields an arbitrary value of its type (listed in the evidence)
+			for _, n := range strings.Fields(fc.Options["volatile"]) {
+				if strings.HasSuffix(l.Key, "/"+n) || strings.HasSuffix(l.Key, ":"+n) || strings.HasSuffix(l.Key, "."+n) && strings.Contains(n, ".") {
+					e.assumed["reads of "+n+" in "+shortKey(e.curFn)+" yield arbitrary values (option volatile: written by another goroutine)"] = true
+					v := Fresh("vol$"+smtIdent(n), e.sortOf(l.T))
+					st.Assume(e.typeFacts(v, l.T, st))
+					return v
+				}
+			}
+		}
 		return e.Heap(st, l.Key, e.sortOf(l.T))
 	case LHeap:
 		if isStructVal(l.Field.Type()) && !isSyncType(l.Field.Type()) {
